@@ -66,6 +66,56 @@ func verifSame29(tag string, prod, rest *AppDB) {
 	}
 }
 
+// VerifDiffers names the first app-DB getter on which two instances disagree
+// ("" if none); for harnesses of other packages.
+func VerifDiffers(a, b *AppDB) string {
+	if a.GetLastHeight() != b.GetLastHeight() {
+		return "height"
+	}
+	if a.GetStartHeight() != b.GetStartHeight() {
+		return "start-height"
+	}
+	if !verifSameBytes(a.GetLastBlockHash(), b.GetLastBlockHash()) {
+		return "app-hash"
+	}
+	ae, be := a.Emission(), b.Emission()
+	if (ae == nil) != (be == nil) || ae != nil && ae.Cmp(be) != 0 {
+		return "emission"
+	}
+	at, a0, a1, al, aoff := a.GetPrice()
+	bt, b0, b1, bl, boff := b.GetPrice()
+	if at.UnixNano() != bt.UnixNano() || (a0 == nil) != (b0 == nil) || aoff != boff {
+		return "price"
+	}
+	if a0 != nil && (a0.Cmp(b0) != 0 || a1.Cmp(b1) != 0 || al.Cmp(bl) != 0) {
+		return "price"
+	}
+	av, bv := a.GetVersions(), b.GetVersions()
+	if len(av) != len(bv) {
+		return "versions"
+	}
+	for i := range av {
+		if av[i].Name != bv[i].Name || av[i].Height != bv[i].Height {
+			return "versions"
+		}
+	}
+	as, an := a.GetLastBlockTimeDelta()
+	bs, bn := b.GetLastBlockTimeDelta()
+	if as != bs || an != bn {
+		return "block-times"
+	}
+	avals, bvals := a.GetValidators(), b.GetValidators()
+	if len(avals) != len(bvals) {
+		return "validators"
+	}
+	for i := range avals {
+		if avals[i].Power != bvals[i].Power {
+			return "validators"
+		}
+	}
+	return ""
+}
+
 type verifLeaf struct{ k, v []byte }
 
 func verifLeaves(t tree.MTree) []verifLeaf {
